@@ -22,6 +22,8 @@ package bidengine
 // successful reservation results observed / Unreserve calls made
 //@ ghost ReservedOK: int
 //@ ghost Unreserved: int
+// the loop's context has been cancelled
+//@ ghost CtxCancelled: bool
 
 //@ extern cluster.(Cluster).Unreserve(recv, order)
 //@   modifies ghost Unreserved
@@ -49,8 +51,11 @@ package bidengine
 //@   pure
 
 //@ func (*order).run
-//@   requires Stage == 0 && BidStarted == 0 && BidOK == 0 && CloseBidSent == 0 && ReservedOK == 0 && Unreserved == 0 && InFlight == 0
-//@   modifies o.bidPlaced, ghost ChanKind, ghost ChanPending, ghost InFlight, ghost Stage, ghost BidStarted, ghost BidOK, ghost CloseBidSent, ghost ReservedOK, ghost Unreserved
+//@   requires !CtxCancelled && Stage == 0 && BidStarted == 0 && BidOK == 0 && CloseBidSent == 0 && ReservedOK == 0 && Unreserved == 0 && InFlight == 0
+//@   modifies o.bidPlaced, ghost ChanKind, ghost ChanPending, ghost InFlight, ghost Stage, ghost BidStarted, ghost BidOK, ghost CloseBidSent, ghost ReservedOK, ghost Unreserved, ghost CtxCancelled
+//@   oncall context.(CancelFunc).functype 1 ghost CtxCancelled := true
+//@   oncall broadcaster.(Client).Broadcast 1 assert !(CtxCancelled && callarg0 == ctx)
+//@   oncall broadcaster.(Client).Broadcast 2 assert !(CtxCancelled && callarg0 == ctx)
 //@   oncall runner.Do 1 ghost Stage := 1
 //@   oncall runner.Do 3 ghost Stage := 2
 //@   oncall runner.Do 4 ghost Stage := 3
